@@ -408,6 +408,8 @@ def norm_val(x):
 def norm_case(x):
     """failure case value; the rendered text of an exception raised inside a check is message text (outside the claim)"""
     x = norm_val(x)
+    if x == "<?bool>":
+        return 0.0  # the rendered placeholder of a symbolic scalar check output: it is listed as a failure case only when it is False
     if isinstance(x, bool):
         return float(x)  # pandas upcasts a boolean failure case that shares the column with numbers (False -> 0.0)
     if isinstance(x, str):
